@@ -1210,6 +1210,20 @@ def canon_atom(at: tuple, depth: int) -> tuple:
                 # D[k] = a ... D[k] = b over the same iteration: the later store wins
                 ents = [e for e in ents if not (e[0] == "set" and e[1] == e_new[1] and e[3] == e_new[3])]
             ents.append(e_new)
+        # `if k not in D: D[k] = 0` before `D[k] += v` is the default of the increment form D[k] = D.get(k, 0) + v
+        def _is_default_init(e):
+            kind, key, val, ctx = e
+            if kind != "set" or val != ZERO or not ctx or len(ctx[-1][2]) != 1:
+                return False
+            c = single_atom(ctx[-1][2][0])
+            if c is None or c[0] != "cmp" or c[1] != "NotIn" or c[2] != key:
+                return False
+            r = single_atom(c[3])
+            if r is None or r[0] != "running":
+                return False
+            bare = ctx[:-1] + ((ctx[-1][0], ctx[-1][1], ()),)
+            return any(e2[0] == "inc" and e2[1] == key and e2[3] == bare for e2 in ents)
+        ents = [e for e in ents if not _is_default_init(e)]
         ents.sort(key=_key)
         rest = tuple(canon(y, depth) for y in at[2:])
         return atom_poly(("dictacc", tuple(ents)) + rest)
